@@ -543,6 +543,12 @@ func (lf *logFile) open(path string, flags int, fsize int64) error {
 			os.Remove(path)
 			return err
 		}
+		// Make the new file's directory entry durable before anything relies on the file:
+		// a synced write to a log whose directory entry is lost on power failure is lost
+		// with it. (z.OpenMmapFile only syncs the directory for files of size zero.)
+		if err := syncDir(filepath.Dir(path)); err != nil {
+			return err
+		}
 		lf.size.Store(vlogHeaderSize)
 
 	} else if ferr != nil {
